@@ -4140,6 +4140,13 @@ func formatID(buf *TrackedBuffer, original, lowered string) {
 			}
 		}
 	}
+	if lowered == "" {
+		// Slots that print lower-case keywords bare (convert(a, json)): a keyword spelled with upper-case letters still
+		// has to be quoted, unquoted it would be read back as the lower-case keyword.
+		if l := strings.ToLower(original); l != original {
+			lowered = l
+		}
+	}
 	if _, ok := keywords[lowered]; ok {
 		goto mustEscape
 	}
